@@ -5,9 +5,10 @@ import ast
 
 from sa.astx import dotted, src
 from sa.selftest import Mutant, Silent
-from sa.props._lib_a import (DEFER, Q, CallGraph, ICModel, group, guarded_by_some_fact, _zero_fact, aliases, attr_of, avoiding_path, call_nodes, calls_of, catching_handlers,
-                             exc_escape, facts, handler_catches_all, handler_names, ident_fact, is_const,
-                             is_name, known_bool, known_zero, method_call, name_assign_nodes, no_exc, params, passes_between, stmt_nodes,
+from sa.source import AnalysisError
+from sa.props._lib_a import (inlined_func, DEFER, Q, CallGraph, ICModel, group, aliases, attr_of, avoiding_path, call_nodes, calls_of, catching_handlers,
+                             exc_escape, handler_catches_all, handler_names, is_const,
+                             is_name, known_bool, method_call, name_assign_nodes, no_exc, params, passes_between, stmt_nodes,
                              sub0, targets_values)
 
 PROPERTY = "C05"
@@ -45,15 +46,31 @@ def check(ctx):
         ctx.check(bool(fires_cb) and bool(fires_eb), "fire/both-outcomes", q, "the result Deferred is never called back / never errbacked")
 
     # ---- fire once, then return ------------------------------------------------------------------
+    with group(ctx, "driver/fire-then-return"):
+        for n in M.fires:
+            cons = ctx.construct(q, g.node(n).ast)
+            wit = avoiding_path(g, [n], set(M.resumes) | set(M.regs) | set(M.fires), [])
+            ctx.check(wit is None, "fire/then-return", cons,
+                      "after firing the result the driver goes on (resumes the finished generator / fires again)", witness=g.describe(wit))
+            # status.deferred is replaced by the cancel handler while the generator runs: it must be read when firing, not before resuming
+            c_ = calls_of(g, n, lambda c: M.is_fire(c))[0]
+            if isinstance(c_.func.value, ast.Name):
+                defs = M.deferred_aliases.get(c_.func.value.id, [])
+                stale = any(g.path([d], M.resumes, edge_ok=no_exc, strict=True) is not None and g.path(M.resumes, [n], avoid=set(defs), edge_ok=no_exc, strict=False)
+                            is not None for d in defs)
+                ctx.check(not stale, "fire/reads-current-result-deferred", cons,
+                          f"the result is fired through `{c_.func.value.id}`, read from status.deferred before the generator was resumed: if the run is "
+                          "cancelled meanwhile, _handleCancelInlineCallbacks has replaced status.deferred and the outcome goes to the old, already "
+                          "cancelled Deferred")
+            else:
+                ctx.ok("fire/reads-current-result-deferred", cons, "status.deferred is read at the firing")
     with group(ctx, "driver/fire-once"):
+        _need_protocol(M)
         for n in M.fires:
             st = M.at(n)
             cons = ctx.construct(q, g.node(n).ast)
             bad = sorted(s for s in st if s[2] == 1)
             ctx.check(bool(st) and not bad, "fire/once-per-run", cons, f"the result Deferred can be fired a second time (state {bad[:2]}): AlreadyCalledError")
-            wit = avoiding_path(g, [n], set(M.resumes) | set(M.regs) | set(M.fires), [])
-            ctx.check(wit is None, "fire/then-return", cons,
-                      "after firing the result the driver goes on (resumes the finished generator / fires again)", witness=g.describe(wit))
             bad = sorted(s for s in st if s[1] == 1)
             ctx.check(not bad, "fire/not-while-suspended", cons, f"the result fires while a helper is still registered on an awaited Deferred (state {bad[:2]})")
         for n in M.resumes + M.regs:
@@ -155,6 +172,7 @@ def check(ctx):
 
     # ---- registration --------------------------------------------------------------------------------
     with group(ctx, "driver/registration"):
+        resumers = {}
         ctx.check(bool(M.regs), "await/both-outcomes-resume", q + " | <registration on the yielded Deferred>",
                   "nothing is registered on the Deferred the generator yielded: the generator is never resumed")
         for r in M.regs:
@@ -165,14 +183,23 @@ def check(ctx):
                 what = "success" if outcome == "ok" else "failure"
                 cons = ctx.construct(q, c) + f" [{what}]"
                 hname = callee.id if isinstance(callee, ast.Name) else None
-                ctx.check(hname in M.helpers, "await/both-outcomes-resume", cons,
+                if hname == IC:
+                    # registered straight on the driver: the outcome resumes this very run iff the extras are (gen, status, context)
+                    ok_direct = extra is not None and [a.id if isinstance(a, ast.Name) else None for a in extra] == [gen, status, cx]
+                    ctx.check(ok_direct, "await/helper-continues-same-run", cons,
+                              "_inlineCallbacks is registered directly but not as _inlineCallbacks(<outcome>, gen, status, context) of this run")
+                    continue
+                if hname is not None and hname not in M.helpers and isinstance(mod.find(hname), ast.FunctionDef) \
+                        and any(isinstance(x, ast.Call) and is_name(x.func, IC) for x in ast.walk(mod.find(hname))):
+                    resumers[hname] = inlined_func(ctx, DEFER, hname)       # resumes the run without taking part in the waiting-cell protocol
+                ctx.check(hname in M.helpers or hname in resumers, "await/both-outcomes-resume", cons,
                           f"a {what} of the awaited Deferred is not routed to the resuming helper ({c.func.attr}: "
                           f"{src(callee) if callee is not None else 'passes through'}): the generator never observes that outcome the way a synchronous "
                           "call would (it is never resumed, or resumed outside the waiting-cell protocol)")
-                if hname not in M.helpers:
+                if hname not in M.helpers and hname not in resumers:
                     continue
                 # extra arguments continue the same generator / status / context
-                H = M.helpers[hname][0]
+                H = M.helpers[hname][0] if hname in M.helpers else resumers[hname]
                 hq = Q + hname
                 hp = params(H)
                 names = [a.id if isinstance(a, ast.Name) else None for a in (extra or [])]
@@ -190,6 +217,8 @@ def check(ctx):
                         ok = ok and k is not None and 1 <= k <= len(names) and names[k - 1] == want[j_]
                     ctx.check(ok, "await/helper-continues-same-run", ctx.construct(hq, rc) + f" [{what}]",
                               "the helper does not resume _inlineCallbacks(<outcome>, gen, status, context) of the run that registered it")
+    with group(ctx, "driver/sync-outcome"):
+        _need_protocol(M)
         # a synchronously delivered outcome is read before the slot is reset
         reads = stmt_nodes(g, lambda st: any(is_name(t, res) and v is not None and sub0(v, W, 1) for t, v in targets_values(st)))
         resets = stmt_nodes(g, lambda st: any(sub0(t, W, 1) for t, _ in targets_values(st)))
@@ -208,6 +237,7 @@ def check(ctx):
 
     # ---- suspension records the awaited Deferred ------------------------------------------------------
     with group(ctx, "driver/cancel-target"):
+        _need_protocol(M)
         stores = stmt_nodes(g, lambda st: any(attr_of(t, "waitingOn", status) for t, _ in targets_values(st)))
         ctx.check(bool(stores), "cancel-target/recorded", q, "status.waitingOn is never recorded: cancel() has nothing to cancel")
         for a, l in sorted(set(g.pred[g.exit])):
@@ -234,7 +264,7 @@ def check(ctx):
 
     # ---- _handleCancelInlineCallbacks ------------------------------------------------------------------
     with group(ctx, "cancel/handler"):
-        hf = ctx.func(DEFER, "_handleCancelInlineCallbacks")
+        hf = inlined_func(ctx, DEFER, "_handleCancelInlineCallbacks")
         hg = ctx.cfg(hf)
         hq2 = Q + "_handleCancelInlineCallbacks"
         h_res, h_status = params(hf)[0], params(hf)[1]
@@ -266,7 +296,7 @@ def check(ctx):
         for n in newd:
             v = [v for t, v in targets_values(hg.node(n).ast) if attr_of(t, "deferred", h_status)][0]
             v = dlocal.get(v.id, v) if isinstance(v, ast.Name) else v
-            ctx.check(_canceller_ok(v, h_status), "cancel/new-result-cancellable", ctx.construct(hq2, hg.node(n).ast),
+            ctx.check(_canceller_ok(v, h_status, hf, mod), "cancel/new-result-cancellable", ctx.construct(hq2, hg.node(n).ast),
                       "the replacement Deferred's canceller is not `lambda d: _addCancelCallbackToDeferred(d, status)`: a second cancel() would not reach the generator")
         rets = stmt_nodes(hg, lambda s: isinstance(s, ast.Return))
         ctx.check(bool(rets) and all(attr_of(hg.node(r).ast.value, "deferred", h_status) or (is_name(hg.node(r).ast.value) and hg.node(r).ast.value.id in dlocal) for r in rets) and avoiding_path(hg, [hg.entry], [hg.exit], rets) is None
@@ -277,7 +307,7 @@ def check(ctx):
 
     # ---- _addCancelCallbackToDeferred -------------------------------------------------------------------
     with group(ctx, "cancel/hook"):
-        af = ctx.func(DEFER, "_addCancelCallbackToDeferred")
+        af = inlined_func(ctx, DEFER, "_addCancelCallbackToDeferred")
         ag = ctx.cfg(af)
         aq = Q + "_addCancelCallbackToDeferred"
         a_it, a_status = params(af)[0], params(af)[1]
@@ -324,7 +354,7 @@ def check(ctx):
 
     # ---- _cancellableInlineCallbacks -------------------------------------------------------------------
     with group(ctx, "entry"):
-        cf = ctx.func(DEFER, "_cancellableInlineCallbacks")
+        cf = inlined_func(ctx, DEFER, "_cancellableInlineCallbacks")
         cq = Q + "_cancellableInlineCallbacks"
         c_gen = params(cf)[0]
         dl = [(t.id, v) for st in ast.walk(cf) if isinstance(st, (ast.Assign, ast.AnnAssign)) for t, v in targets_values(st)
@@ -339,7 +369,7 @@ def check(ctx):
             sn, sv = sl[0]
             ctx.check(len(sv.args) >= 1 and is_name(sv.args[0], dn) and len(sv.args) == 1 and not sv.keywords, "entry/wiring", cq + " | status.deferred",
                       "the status does not refer to the Deferred that is returned (or starts with a stale waitingOn)")
-            ctx.check(_canceller_ok(dv, sn), "entry/wiring", cq + " | canceller", "the returned Deferred's canceller does not route to _addCancelCallbackToDeferred(d, status)")
+            ctx.check(_canceller_ok(dv, sn, cf, mod), "entry/wiring", cq + " | canceller", "the returned Deferred's canceller does not route to _addCancelCallbackToDeferred(d, status)")
             rc = runs[0]
             ctx.check(len(rc.args) == 4 and is_const(rc.args[0], None) and is_name(rc.args[1], c_gen) and is_name(rc.args[2], sn), "entry/wiring", cq + " | first run",
                       "the generator is not started with _inlineCallbacks(None, gen, status, <context>)")
@@ -352,49 +382,212 @@ def check(ctx):
 
     # ---- Deferred.__iter__ / __await__ ------------------------------------------------------------------
     with group(ctx, "await"):
-        itf = ctx.func(DEFER, "Deferred.__iter__")
-        ig = ctx.cfg(itf)
-        iq = Q + "Deferred.__iter__"
-        R = {t.id for n in stmt_nodes(ig, lambda s: True) for t, v in targets_values(ig.node(n).ast) if isinstance(t, ast.Name) and v is not None and _reads_self_result(v)}
-        read_nodes = stmt_nodes(ig, lambda st: any(isinstance(t, ast.Name) and v is not None and _reads_self_result(v) for t, v in targets_values(st)))
-        ctx.check(bool(R), "await/only-with-result", iq + " | <result read from the Deferred>",
-                  "__iter__ no longer reads the Deferred's result (self.result / getattr(self, 'result', _NO_RESULT)) into a local before deciding")
-        isR = lambda e: isinstance(e, ast.Name) and e.id in R
-        yields = ig.find(lambda x: isinstance(x, (ast.Yield, ast.YieldFrom)))
-        ctx.check(bool(yields), "await/suspends", iq, "__iter__ never yields: awaiting an unfired Deferred cannot suspend")
-        for y in yields:
-            ys = [x for x in ast.walk(ig.node(y).ast) if isinstance(x, (ast.Yield, ast.YieldFrom))]
-            cons = ctx.construct(iq, ig.node(y).ast)
-            ctx.check(all(isinstance(x, ast.Yield) and is_name(x.value, "self") for x in ys), "await/yields-itself", cons,
-                      "the object handed to the driver is not the awaited Deferred itself")
-            def no_outcome(e, pol):
-                return _zero_fact(e, pol, lambda x: attr_of(x, "paused", "self")) is False or \
-                    ident_fact(e, pol, isR, lambda x: (dotted(x) or "").endswith("_NO_RESULT")) is True
-            ctx.check(guarded_by_some_fact(ig, y, no_outcome), "await/suspends-only-without-result", cons, "the awaiter suspends although the Deferred has a result and is not paused")
-            wit = avoiding_path(ig, [y], [n for n in ig.ids(lambda n: n.kind in ("stmt", "test") and any(isR(x) for x in ast.walk(n.ast))) if n not in read_nodes], read_nodes)
-            ctx.check(wit is None, "await/result-reread-after-resume", cons, "after being resumed the awaiter uses the result it read before suspending (stale _NO_RESULT)",
-                      witness=ig.describe(wit))
-        rets = stmt_nodes(ig, lambda s: isinstance(s, ast.Return))
-        raises = call_nodes(ig, lambda c: isinstance(c.func, ast.Attribute) and c.func.attr == "raiseException") + stmt_nodes(ig, lambda s: isinstance(s, ast.Raise))
-        ctx.check(bool(rets) and bool(raises), "await/delivers-both-outcomes", iq, "__iter__ does not both return values and raise failures")
-        isfail = lambda e: isinstance(e, ast.Call) and dotted(e.func) == "isinstance" and len(e.args) == 2 and isR(e.args[0]) and is_name(e.args[1], "Failure")
-        for n in rets + raises:
-            cons = ctx.construct(iq, ig.node(n).ast)
-            ctx.check(known_zero(ig, n, lambda e: attr_of(e, "paused", "self")) is True, "await/not-while-paused", cons, "an outcome is delivered although the Deferred is paused")
-            ctx.check(any(ident_fact(e, pol, isR, lambda x: (dotted(x) or "").endswith("_NO_RESULT")) is False for e, pol in facts(ig, n)), "await/only-with-result", cons,
-                      "an outcome is delivered although the Deferred has no result (the _NO_RESULT marker would be delivered)")
-            v = known_bool(ig, n, isfail)
-            if n in rets:
-                ctx.check(v is False and isR(ig.node(n).ast.value), "await/value-returned-failure-raised", cons, "a Failure can be *returned* to the awaiter (or the value returned is not the result)")
-            else:
-                ctx.check(v is True, "await/value-returned-failure-raised", cons, "a plain value can be raised into the awaiter")
-                if isinstance(ig.node(n).ast, ast.Expr):
-                    c = ig.node(n).ast.value
-                    ctx.check(isinstance(c, ast.Call) and isinstance(c.func, ast.Attribute) and isR(c.func.value), "await/value-returned-failure-raised", cons + " (which failure)",
-                              "the exception raised is not the Deferred's Failure result")
+        _check_await(ctx)
         cls = ctx.cls(DEFER, "Deferred")
         aw = [st for st in cls.body if isinstance(st, ast.Assign) and any(is_name(t, "__await__") for t in st.targets)]
         ctx.check(len(aw) == 1 and is_name(aw[0].value, "__iter__"), "await/alias", Q + "Deferred.__await__", "__await__ is not __iter__: coroutines and generators would see different behaviour")
+
+
+def _need_protocol(M):
+    """The typestate clauses presuppose the suspension protocol of the driver: a `waiting` cell list handed to the registered helper."""
+    if M is None or M.W is None or not M.helpers:
+        raise AnalysisError("C05: the waiting-cell suspension protocol of _inlineCallbacks is not recognisable; the clauses that depend on the "
+                            "(cell, pending, fired) typestate are not decided for this shape")
+
+
+class _Stale(Exception):
+    pass
+
+
+class _AwaitEval:
+    """Finite-domain evaluation of Deferred.__iter__: one *poll* of the Deferred under a valuation of (paused, has a result,
+    result is a Failure) must end in `yield self` / `return <result>` / raising the Failure as documented; after a yield every
+    local computed from the Deferred's state is stale and must be read again before it is used."""
+
+    def __init__(self, ctx, f):
+        self.f, self.g = f, ctx.cfg(f)
+
+    def val(self, e, env, loc):
+        """symbolic value: 'NORES' | 'RES' | True/False | '?'"""
+        if isinstance(e, ast.Constant):
+            return e.value
+        if isinstance(e, ast.Name):
+            if e.id in loc:
+                if loc[e.id] == "STALE":
+                    raise _Stale(e.id)
+                return loc[e.id]
+            if e.id.endswith("_NO_RESULT"):
+                return "NORES"
+            return "?"
+        if isinstance(e, ast.Attribute):
+            if (dotted(e) or "").endswith("_NO_RESULT"):
+                return "NORES"
+            if attr_of(e, "paused", "self"):
+                return env["paused"]
+            if attr_of(e, "result", "self"):
+                return "RES" if env["has"] else "?"
+            if attr_of(e, "called", "self"):
+                return env["has"]
+            return "?"
+        if isinstance(e, ast.Call):
+            fn = dotted(e.func)
+            if fn == "getattr" and len(e.args) >= 2 and is_name(e.args[0], "self") and isinstance(e.args[1], ast.Constant) and e.args[1].value == "result":
+                return "RES" if env["has"] else (self.val(e.args[2], env, loc) if len(e.args) > 2 else "?")
+            if fn == "hasattr" and len(e.args) == 2 and is_name(e.args[0], "self") and isinstance(e.args[1], ast.Constant) and e.args[1].value == "result":
+                return env["has"]
+            if fn == "isinstance" and len(e.args) == 2 and is_name(e.args[1], "Failure"):
+                v = self.val(e.args[0], env, loc)
+                return env["fail"] if v == "RES" else (False if v == "NORES" else "?")
+            return "?"
+        if isinstance(e, ast.IfExp):
+            t = self.val(e.test, env, loc)
+            if t in (True, False) or isinstance(t, int):
+                return self.val(e.body if t else e.orelse, env, loc)
+            return "?"
+        if isinstance(e, ast.UnaryOp) and isinstance(e.op, ast.Not):
+            v = self.val(e.operand, env, loc)
+            return (not v) if v in (True, False) or isinstance(v, int) else "?"
+        if isinstance(e, ast.BoolOp):
+            vals = [self.val(x, env, loc) for x in e.values]
+            if any(v == "?" or isinstance(v, str) for v in vals):
+                return "?"
+            return all(vals) if isinstance(e.op, ast.And) else any(vals)
+        if isinstance(e, ast.Compare) and len(e.ops) == 1 and isinstance(e.ops[0], (ast.Is, ast.IsNot, ast.Eq, ast.NotEq)):
+            a, b = self.val(e.left, env, loc), self.val(e.comparators[0], env, loc)
+            if a in ("NORES", "RES") and b in ("NORES", "RES"):
+                same = a == b
+                return same if isinstance(e.ops[0], (ast.Is, ast.Eq)) else not same
+            return "?"
+        return "?"
+
+    def poll(self, start, env, loc):
+        """outcomes [(kind, ast value or None, node, locals)] of one poll started at CFG node ``start``"""
+        g = self.g
+        out = []
+        stack = [(start, dict(loc), 0)]
+        while stack:
+            n, loc_, depth = stack.pop()
+            if depth > 300:
+                out.append(("spin", None, n, loc_))
+                continue
+            node = g.node(n)
+            if n == g.exit:
+                out.append(("return", None, n, loc_))
+                continue
+            if n == g.raise_exit:
+                continue
+            try:
+                if node.kind == "stmt":
+                    st = node.ast
+                    ys = [x for x in ast.walk(st) if isinstance(x, (ast.Yield, ast.YieldFrom))]
+                    if ys:
+                        out.append(("yield", ys[0], n, loc_))
+                        continue
+                    if isinstance(st, ast.Return):
+                        out.append(("return", st.value, n, loc_))
+                        if st.value is not None:
+                            self.val(st.value, env, loc_)
+                        continue
+                    if isinstance(st, ast.Raise):
+                        out.append(("raise", st.exc, n, loc_))
+                        continue
+                    if isinstance(st, ast.Expr) and isinstance(st.value, ast.Call) and isinstance(st.value.func, ast.Attribute) and st.value.func.attr == "raiseException":
+                        self.val(st.value.func.value, env, loc_)
+                        out.append(("raise", st.value.func.value, n, loc_))
+                        continue
+                    if isinstance(st, ast.Assert):
+                        pass
+                    else:
+                        for t, v in targets_values(st):
+                            if isinstance(t, ast.Name):
+                                loc_ = dict(loc_)
+                                loc_[t.id] = self.val(v, env, loc_) if v is not None else "?"
+                labs = None
+                if node.kind == "test":
+                    v = self.val(node.ast, env, loc_)
+                    if v == "NORES":
+                        v = True        # the marker object is truthy
+                    if v in (True, False) or (isinstance(v, int) and not isinstance(v, str)):
+                        labs = ["T" if v else "F"]
+            except _Stale as ex:
+                out.append(("stale", str(ex), n, loc_))
+                continue
+            for d, l in g.succ[n]:
+                if l == "exc":
+                    continue
+                if labs is not None and l in ("T", "F") and l not in labs:
+                    continue
+                stack.append((d, loc_, depth + 1))
+        return out
+
+
+def _check_await(ctx):
+    import itertools
+    itf = inlined_func(ctx, DEFER, "Deferred.__iter__")
+    iq = Q + "Deferred.__iter__"
+    E = _AwaitEval(ctx, itf)
+    g = E.g
+    envs = [dict(zip(("paused", "has", "fail"), v)) for v in itertools.product((0, 1), repeat=3) if not (v[2] and not v[1])]
+    lab = lambda e: f"paused={'T' if e['paused'] else 'F'} result={'failure' if e['fail'] else ('value' if e['has'] else 'none')}"
+    any_yield = False
+
+    def judge(outs, env, cons):
+        nonlocal any_yield
+        want = "yield" if (env["paused"] or not env["has"]) else ("raise" if env["fail"] else "return")
+        resumes = []
+        ok_susp = ok_paused = ok_has = ok_kind = ok_self = ok_fresh = True
+        for kind, v, n, loc in outs:
+            if kind == "stale":
+                ok_fresh = False
+                continue
+            if kind == "spin":
+                ok_kind = False
+                continue
+            if kind == "yield":
+                any_yield = True
+                if not (isinstance(v, ast.Yield) and is_name(v.value, "self")):
+                    ok_self = False
+                if want != "yield":
+                    ok_susp = False
+                resumes.append((n, loc))
+                continue
+            if want == "yield":
+                if env["paused"]:
+                    ok_paused = False
+                else:
+                    ok_has = False
+                continue
+            try:
+                if kind == "return":
+                    subject_ok = v is not None and E.val(v, env, loc) == "RES"
+                else:   # raise: the exception comes from the result (result.raiseException() / raise result.value ...)
+                    subject_ok = v is not None and any(isinstance(x, ast.Name) and loc.get(x.id) == "RES" for x in ast.walk(v))
+            except _Stale:
+                subject_ok, ok_fresh = False, False
+            if kind != want or not subject_ok:
+                ok_kind = False
+        ctx.check(ok_susp, "await/suspends-only-without-result", cons, "the awaiter suspends although the Deferred has a result and is not paused")
+        ctx.check(ok_paused, "await/not-while-paused", cons, "an outcome is delivered although the Deferred is paused")
+        ctx.check(ok_has, "await/only-with-result", cons, "an outcome is delivered although the Deferred has no result (the _NO_RESULT marker would be delivered)")
+        ctx.check(ok_kind, "await/value-returned-failure-raised", cons,
+                  "the awaiter does not return a plain result / raise a Failure result (a Failure is returned, a value raised, or something other than the result delivered)")
+        ctx.check(ok_self, "await/yields-itself", cons, "the object handed to the driver is not the awaited Deferred itself")
+        ctx.check(ok_fresh, "await/result-reread-after-resume", cons, "after being resumed the awaiter uses the result it read before suspending (stale _NO_RESULT)")
+        return resumes
+    for env in envs:
+        outs = E.poll(g.entry, env, {})
+        ctx.check(bool(outs), "await/delivers-both-outcomes", iq + " | " + lab(env), "no path through __iter__ for this state")
+        resumes = judge(outs, env, f"{iq} | first poll: {lab(env)}")
+        for n, loc in resumes[:2]:
+            stale = {k: "STALE" for k in loc}
+            for env2 in envs:
+                outs2 = []
+                for d, l in g.succ[n]:
+                    if l != "exc":
+                        outs2 += E.poll(d, env2, stale)
+                judge(outs2, env2, f"{iq} | after a suspension in {lab(env)}: {lab(env2)}")
+    ctx.check(any_yield, "await/suspends", iq, "__iter__ never yields: awaiting an unfired Deferred cannot suspend")
+
 
 
 def _value_of(v, e) -> bool:
@@ -426,16 +619,46 @@ def _reads_self_result(v) -> bool:
     return False
 
 
-def _canceller_ok(dcall, status_name) -> bool:
-    """Deferred(<canceller>) whose canceller is `lambda d: _addCancelCallbackToDeferred(d, <status>)`"""
+def _routes_to_hook(fn, status_name) -> bool:
+    """fn (lambda / def with one parameter p) does exactly `_addCancelCallbackToDeferred(p, <status_name>)`"""
+    if isinstance(fn, ast.Lambda):
+        ps, body = [a.arg for a in fn.args.args], fn.body
+    elif isinstance(fn, (ast.FunctionDef,)):
+        ps = [a.arg for a in fn.args.args]
+        stmts = [st for st in fn.body if not (isinstance(st, ast.Expr) and isinstance(st.value, ast.Constant))]
+        if len(stmts) != 1 or not isinstance(stmts[0], (ast.Expr, ast.Return)):
+            return False
+        body = stmts[0].value
+    else:
+        return False
+    return len(ps) == 1 and isinstance(body, ast.Call) and is_name(body.func, "_addCancelCallbackToDeferred") and len(body.args) == 2 \
+        and not body.keywords and is_name(body.args[0], ps[0]) and is_name(body.args[1], status_name)
+
+
+def _canceller_ok(dcall, status_name, encl=None, mod=None) -> bool:
+    """Deferred(<canceller>) whose canceller does `_addCancelCallbackToDeferred(d, <status>)`: a lambda, a nested function of the
+    enclosing function, or the product of a module-level factory called with the status."""
     if not (isinstance(dcall, ast.Call) and dotted(dcall.func) == "Deferred"):
         return False
     c = dcall.args[0] if dcall.args else next((k.value for k in dcall.keywords if k.arg == "canceller"), None)
-    if not isinstance(c, ast.Lambda) or len(c.args.args) != 1:
-        return False
-    b = c.body
-    return isinstance(b, ast.Call) and is_name(b.func, "_addCancelCallbackToDeferred") and len(b.args) == 2 \
-        and is_name(b.args[0], c.args.args[0].arg) and is_name(b.args[1], status_name)
+    if isinstance(c, ast.Lambda):
+        return _routes_to_hook(c, status_name)
+    if isinstance(c, ast.Name) and encl is not None:
+        defs = [st for st in ast.walk(encl) if isinstance(st, ast.FunctionDef) and st is not encl and st.name == c.id]
+        return len(defs) == 1 and _routes_to_hook(defs[0], status_name)
+    if isinstance(c, ast.Call) and isinstance(c.func, ast.Name) and mod is not None and len(c.args) == 1 and not c.keywords and is_name(c.args[0], status_name):
+        fac = mod.find(c.func.id)
+        if isinstance(fac, ast.FunctionDef) and len(fac.args.args) == 1:
+            fp = fac.args.args[0].arg
+            rets = [st for st in ast.walk(fac) if isinstance(st, ast.Return) and mod.enclosing_function(st) is fac]
+            if len(rets) == 1:
+                rv = rets[0].value
+                if isinstance(rv, ast.Lambda):
+                    return _routes_to_hook(rv, fp)
+                if isinstance(rv, ast.Name):
+                    defs = [st for st in fac.body if isinstance(st, ast.FunctionDef) and st.name == rv.id]
+                    return len(defs) == 1 and _routes_to_hook(defs[0], fp)
+    return False
 
 
 D = DEFER
@@ -478,14 +701,17 @@ MUTANTS = [
     Mutant("suspend-without-recording", D, "                status.waitingOn = result  # type: ignore[assignment]\n", "", expect_rule="cancel-target/recorded"),
     Mutant("return-dropped-after-callback", D, "            status.deferred.callback(callbackValue)\n            return\n", "            status.deferred.callback(callbackValue)\n",
            expect_rule="fire/then-return"),
-    Mutant("failure-bypasses-helper", D, "result.addBoth(_gotResultInlineCallbacks, waiting, gen, status, context)",
-           "result.addCallbacks(_gotResultInlineCallbacks, _inlineCallbacks, callbackArgs=(waiting, gen, status, context), errbackArgs=(gen, status, context))",
-           expect_rule="await/both-outcomes-resume"),
     Mutant("failure-route-swaps-gen-and-status", D, "result.addBoth(_gotResultInlineCallbacks, waiting, gen, status, context)",
            "result.addCallbacks(_gotResultInlineCallbacks, _gotResultInlineCallbacks, callbackArgs=(waiting, gen, status, context), errbackArgs=(waiting, status, gen, context))",
            expect_rule="await/helper-continues-same-run"),
     Mutant("await-reads-no-result", D, "            result = getattr(self, \"result\", _NO_RESULT)\n            if result is _NO_RESULT:\n                yield self\n                continue\n\n            if isinstance(result, Failure):",
            "            if not self.called:\n                yield self\n                continue\n            result = self.callbacks\n            if isinstance(result, Failure):", expect_rule="await/"),
+    Mutant("cell-read-before-registration", D, "            result.addBoth(_gotResultInlineCallbacks, waiting, gen, status, context)  # type: ignore[attr-defined]\n            if waiting[0]:",
+           "            stillWaiting = waiting[0]\n            result.addBoth(_gotResultInlineCallbacks, waiting, gen, status, context)  # type: ignore[attr-defined]\n            if stillWaiting:", expect_rule="resume/"),
+    Mutant("result-deferred-cached-before-resuming", D, "    stopIteration: bool = False\n    callbackValue: Any = None\n\n    while 1:\n",
+           "    stopIteration: bool = False\n    callbackValue: Any = None\n    outcomeDeferred = status.deferred\n\n    while 1:\n",
+           more=[(D, "            status.deferred.callback(callbackValue)\n            return\n", "            outcomeDeferred.callback(callbackValue)\n            return\n")],
+           expect_rule="fire/reads-current-result-deferred"),
 ]
 SILENT = [
     Silent("cancel-attribute-directly", D, "    awaited = status.waitingOn\n    assert awaited is not None\n    awaited.cancel()\n", "    assert status.waitingOn is not None\n    status.waitingOn.cancel()\n"),
@@ -506,4 +732,21 @@ SILENT = [
            "result.addCallbacks(callback=_gotResultInlineCallbacks, errback=_gotResultInlineCallbacks, callbackArgs=(waiting, gen, status, context), errbackArgs=(waiting, gen, status, context))"),
     Silent("await-conditional-read", D, "            result = getattr(self, \"result\", _NO_RESULT)\n            if result is _NO_RESULT:\n                yield self",
            "            result = self.result if self.called else _NO_RESULT\n            if result is _NO_RESULT:\n                yield self"),
+    Silent("suspend-test-through-temporary", D, "            if waiting[0]:\n                # Haven't called back yet, set flag so that we get reinvoked\n                # and return from the loop\n                waiting[0] = False\n                status.waitingOn = result  # type: ignore[assignment]\n                return\n\n            result = waiting[1]\n            # Reset waiting to initial values for next loop.  gotResult uses\n            # waiting, but this isn't a problem because gotResult is only\n            # executed once, and if it hasn't been executed yet, the return\n            # branch above would have been taken.\n\n            waiting[0] = True\n            waiting[1] = None\n",
+           "            stillWaiting = waiting[0]\n            if not stillWaiting:\n                result, waiting[1] = waiting[1], None\n                waiting[0] = True\n                continue\n            waiting[0] = False\n            status.waitingOn = result\n            return\n"),
+    Silent("resume-extracted-into-helper", D, "            isFailure = isinstance(result, Failure)\n\n            if isFailure:\n                result = context.run(\n                    cast(Failure, result).throwExceptionIntoGenerator, gen\n                )\n            else:\n                result = context.run(gen.send, result)\n",
+           "            isFailure = isinstance(result, Failure)\n            result = _advance(gen, result, context)\n",
+           more=[(D, "@_extraneous\ndef _inlineCallbacks(", "def _advance(gen, outcome, context):\n    if isinstance(outcome, Failure):\n        return context.run(outcome.throwExceptionIntoGenerator, gen)\n    return context.run(gen.send, outcome)\n\n\n@_extraneous\ndef _inlineCallbacks(")]),
+    Silent("failure-routed-straight-to-the-driver", D, "result.addBoth(_gotResultInlineCallbacks, waiting, gen, status, context)",
+           "result.addCallbacks(_gotResultInlineCallbacks, _inlineCallbacks, callbackArgs=(waiting, gen, status, context), errbackArgs=(gen, status, context))"),
+    Silent("result-deferred-read-at-the-firing-through-local", D, "            status.deferred.callback(callbackValue)\n            return\n",
+           "            outcomeDeferred = status.deferred\n            outcomeDeferred.callback(callbackValue)\n            return\n"),
+    Silent("cancellers-named-and-from-a-factory", D, "    status.deferred = Deferred(lambda d: _addCancelCallbackToDeferred(d, status))\n\n    # We would",
+           "    status.deferred = Deferred(_makeCanceller(status))\n\n    # We would",
+           more=[(D, "    deferred: Deferred[_T] = Deferred(lambda d: _addCancelCallbackToDeferred(d, status))\n    status = _CancellationStatus(deferred)\n",
+                  "    def onCancel(d):\n        _addCancelCallbackToDeferred(d, status)\n\n    deferred: Deferred[_T] = Deferred(onCancel)\n    status = _CancellationStatus(deferred)\n"),
+                 (D, "def _handleCancelInlineCallbacks(\n", "def _makeCanceller(status):\n    def onCancel(d):\n        _addCancelCallbackToDeferred(d, status)\n\n    return onCancel\n\n\ndef _handleCancelInlineCallbacks(\n")]),
+    Silent("await-single-polling-loop", D,
+           "        while True:\n            if self.paused:\n                # If we're paused, we have no result to give\n                yield self\n                continue\n\n            result = getattr(self, \"result\", _NO_RESULT)\n            if result is _NO_RESULT:\n                yield self\n                continue\n\n            if isinstance(result, Failure):\n                # Clear the failure on debugInfo so it doesn't raise \"unhandled\n                # exception\"\n                assert self._debugInfo is not None\n                self._debugInfo.failResult = None\n                result.raiseException()\n            else:\n                return result  # type: ignore[return-value]\n",
+           "        while True:\n            result = _NO_RESULT if self.paused else getattr(self, \"result\", _NO_RESULT)\n            if result is not _NO_RESULT:\n                break\n            yield self\n        if not isinstance(result, Failure):\n            return result\n        assert self._debugInfo is not None\n        self._debugInfo.failResult = None\n        result.raiseException()\n"),
 ]
